@@ -148,6 +148,8 @@ def prop_C03(run):
     rules_tab.tab_cli_groups(run)               # ... and reaches the write
     # unchecked arithmetic in the formatters (a panic on an empty or odd-sized output)
     lim2_obligations(run, only=lambda key, f: "bitvec_format" in key)
+    import rules_lim as _rl
+    _rl.lim_fmt_width(run)
     np_ = rules_err.pair(run, reach)
     run.floor("PAIR", "functions pushing parents", np_, 12)
     run.rules_run += ["ERR1 Err => message pushed (interprocedural path-state search)", "ERR3 Unresolved/None in a last pass => message pushed",
@@ -280,6 +282,7 @@ def prop_C19(run):
     rules_lim.cap_sources(run)
     run.floor("LIM3", "iterated ranges inspected", run.counters.get("lim3_iterated_ranges", 0), 20)
     rules_lim.lim4(run)
+    rules_lim.lim_fmt_width(run)
     run.rules_run += ["LIM1 recursion cycles guarded", "LIM1b loop-carried Expr nesting", "LIM2 magnitude-class taint over machine arithmetic", "LIM3 user-sized loop bounds", "LIM4 capped big-integer operations"]
 
 
